@@ -134,18 +134,31 @@ Fam4(len) ==
   {In(c, s, m, SmallCfgs \ {c}) : c \in SmallCfgs, s \in Senders, m \in SeqsUpTo(SmallAddrs, 1)}
   \cup {In(c, VerpSender, m, SmallCfgs \ {c}) : c \in SmallCfgs, m \in SeqsUpTo(SmallAddrs, len)}
 
-\* set of [c: configuration, s: sender, m: recipients, e: set of configurations an edit may produce]
-\* (one definition selected by Tier: TLC evaluates every constant definition eagerly)
-Inputs ==
-  CASE Tier = "quick"    -> Fam1(2, DomsCore \cup {dAup, dY, dT, dotA, dBA, <<>>}) \cup Fam2(1, {dA, dO}, {dA, dAup, dO, dB}) \cup Fam3(1) \cup Fam4(3)
-    [] Tier = "thorough" -> Fam1(3, DomsCore \cup DomsNear) \cup Fam2(2, {dA, dO, dB}, {dA, dAup, dO, dB, dZ}) \cup Fam3(2) \cup Fam4(4)
-    [] OTHER             -> Fam1(1, DomsCore) \cup Fam4(2)
+\* the input sets, each a set of [c: configuration, s: sender, m: recipients, e: set of configurations an edit
+\* may produce]; selected by Tier inside one definition each, because TLC evaluates every constant definition
+\* eagerly; kept apart because TLC's union of large sets of records is slow
+In1 == CASE Tier = "quick"    -> Fam1(2, DomsCore \cup {dAup, dY, dT, dotA, dBA, <<>>})
+         [] Tier = "thorough" -> Fam1(3, DomsCore \cup DomsNear)
+         [] OTHER             -> Fam1(1, DomsCore)
+In2 == CASE Tier = "quick"    -> Fam2(1, {dA, dO}, {dA, dAup, dO, dB})
+         [] Tier = "thorough" -> Fam2(2, {dA, dO, dB}, {dA, dAup, dO, dB, dZ})
+         [] OTHER             -> Fam2(0, {dA}, {dA, dO})
+In3 == CASE Tier = "quick"    -> Fam3(1)
+         [] Tier = "thorough" -> Fam3(2)
+         [] OTHER             -> Fam3(0)
+In4 == CASE Tier = "quick"    -> Fam4(3)
+         [] Tier = "thorough" -> Fam4(4)
+         [] OTHER             -> Fam4(2)
 
-Init == \E in \in Inputs :
+Start(in) ==
           /\ files = in.c /\ mem = GetControls(in.c) /\ hist = <<[k |-> "start", c |-> in.c]>>
           /\ snd = in.s /\ msg = in.m /\ edits = in.e
           /\ n = 1 /\ pc = "copy" /\ addr = <<>> /\ i = 0 /\ at = 0
           /\ outL = <<>> /\ outR = <<>> /\ dl = <<>> /\ round = 0
+Init == \/ \E in \in In1 : Start(in)
+        \/ \E in \in In2 : Start(in)
+        \/ \E in \in In3 : Start(in)
+        \/ \E in \in In4 : Start(in)
 
 Keep(S) == UNCHANGED S
 ctl == <<files, mem, hist, snd, msg, round, edits>>
